@@ -548,6 +548,23 @@ func ruleC17h(c *Ctx, rule string) {
 			c.check(rule, "every remaining iteration is offered every row", onv.Pos(), ok, "each pass of the loop over the remaining iterations reaches it.onValue", "a pass of the loop over the remaining iterations can skip it.onValue ("+badPath+"): that consumer neither gets the row nor votes to continue, so the shared scan can stop while it still wants rows")
 		}
 	}
+	// (1b) the shared callback asks for more rows iff ANY remaining iteration does
+	if cb != nil {
+		okOr, nRet := true, 0
+		for _, in := range instrs(cb) {
+			r, isR := in.(*ssa.Return)
+			if !isR || len(r.Results) != 2 {
+				continue
+			}
+			nRet++
+			for _, leaf := range phiLeaves(r.Results[0]) {
+				if _, isC := constBool(leaf); !isC {
+					okOr = false
+				}
+			}
+		}
+		c.check(rule, "the shared scan continues while any iteration wants more", cb.Pos(), okOr && nRet > 0, "'more' starts false and is only ever set to true", "the 'more' result of the shared row callback takes the answer of one particular iteration (whichever the loop over the map visits last) instead of accumulating 'true' from any of them: the shared scan stops as soon as that one query has enough, and the others silently miss rows")
+	}
 	// (2)
 	n := 0
 	for _, in := range instrs(dp) {
